@@ -306,8 +306,9 @@ def d5_cohesion_sampler(ctx):
             pm.get(tot_st[0]) is pm.get(dels[0]) is pm.get(ren[0])
         good = v == astx.A("[v / total_value_sum for v in values]") and tot is not None and astx.u(tot) == "sum(values)" and order_ok
     ctx.check(good, f, ren[0] if ren else f.node, "remaining cohesion values are renormalised by their sum after the deletion", "", "renormalisation after exhausting a slate changed")
+    # (blocs and values are parallel lists - copied, deleted from and measured together, see above - so either length serves)
     bins = [dv for st, dv in astx.defs_of(f.node, "distribution_bins") if dv is not None]
-    ctx.check(len(bins) == 2 and all(astx.u(b) == astx.A("[0] + [sum(values[:i + 1]) for i in range(len(blocs))]") for b in bins), f, bins[0] if bins else f.node,
+    ctx.check(len(bins) == 2 and all(astx.u(b) in (astx.A("[0] + [sum(values[:i + 1]) for i in range(len(blocs))]"), astx.A("[0] + [sum(values[:i + 1]) for i in range(len(values))]")) for b in bins), f, bins[0] if bins else f.node,
               "bins are the cumulative sums of the current values (recomputed after renormalising)", "", "bin computation changed or is not repeated after renormalising")
     # zero-cohesion completion: the remaining slots (one per remaining candidate) are shuffled as slots
     sh = [c for c in astx.calls_in(f.node, "shuffle")]
